@@ -190,7 +190,7 @@ func (w *World) LoadContracts() error {
 				base, suf = k[:i], k[i:] // a closure of a generic function: pkg.F$1 binds pkg.F[T1]$1, pkg.F[T2]$1, ...
 			}
 			for fk, f := range w.Funcs {
-				if (suf == "" && strings.HasPrefix(fk, k+"[")) || (suf != "" && strings.HasPrefix(fk, base+"[") && strings.HasSuffix(fk, "]"+suf)) {
+				if (suf == "" && strings.HasPrefix(fk, k+"[") && strings.HasSuffix(fk, "]") && !strings.Contains(fk[len(k):], "$")) || (suf != "" && strings.HasPrefix(fk, base+"[") && strings.HasSuffix(fk, "]"+suf)) {
 					cc := *c
 					cc.Fn = f
 					cc.Key = fk
